@@ -511,6 +511,16 @@ retry_peek:
 		hdr = (struct qb_ipc_request_header *)msg;
 		to_recv = hdr->size;
 	}
+	if (to_recv < 0 || to_recv > len) {
+		/*
+		 * The peer announces more than the caller's buffer holds (or
+		 * nonsense): take the datagram off the queue without writing
+		 * past the buffer and report it.
+		 */
+		(void)recv(one_way->u.us.sock, data, len, MSG_NOSIGNAL);
+		final_rc = -EMSGSIZE;
+		goto cleanup_sigpipe;
+	}
 
 	result = recv(one_way->u.us.sock, data, to_recv,
 		      MSG_NOSIGNAL | MSG_WAITALL);
